@@ -1092,6 +1092,13 @@ static JanetSlot janetc_fn(JanetFopts opts, int32_t argn, const Janet *argv) {
         }
     }
 
+    /* Arguments arrive in consecutive stack slots, parameters are given registers by the allocator, and the
+     * allocator steps over the reserved registers 240-255: beyond 240 parameters the two no longer line up. */
+    if (c->scope->ra.max >= 0xF0) {
+        errmsg = "too many parameters (limit is 240)";
+        goto error;
+    }
+
     /* Compile destructed params */
     int32_t j = 0;
     for (i = 0; i < paramcount; i++) {
